@@ -1,7 +1,7 @@
 """C06 - both line-breaking algorithms return an ordered partition of the fragments."""
 from ..engine import AnchorMissing
 from ..sym import sym_of
-from ..poly import fact_nf, poly, Poly
+from ..poly import fact_nf, poly, Poly, GT0, GE0, EQ0, NE0
 from ..describe import describe
 from ..engines.schemas import range_parts
 from .. import lemmas
@@ -109,7 +109,7 @@ def _first_fit_chain(prog, rep):
                     "after emitting fragments[start..idx] the cut index becomes %s instead of idx: fragments are "
                     "dropped or repeated" % describe(nxt, body), site=site)
             nfs = [fact_nf(f) for f in tr.facts if f[0][0] == "cmp"]
-            want = ("gt0", poly(m.idx) - poly(m.start))
+            want = GT0(poly(m.idx) - poly(m.start))
             r.check(want in nfs, "nonempty-guard", "the in-loop emission is dominated by idx > start",
                     "path condition contains idx - start > 0",
                     "the in-loop emission is not guarded by idx > start: an empty line can be emitted", site=site)
@@ -174,10 +174,10 @@ def _optimal_chain(prog, rep):
                 "after an emission pos becomes %s instead of minima[pos].0" % describe(nxt, body)[:200], site=site)
         nfs = [fact_nf(f) for f in tr.facts if f[0][0] == "cmp"]
         if tr.kind == "exit":
-            r.check(("eq0", poly(prev)) in nfs, "exit-cond", "the loop is left exactly when the new pos is 0",
+            r.check(EQ0(poly(prev)) in nfs, "exit-cond", "the loop is left exactly when the new pos is 0",
                     "exit path condition: minima[pos].0 == 0", "the back-trace loop exits under %s, expected pos == 0" % nfs, site=site)
         else:
-            r.check(("ne0", poly(prev)) in nfs, "continue-cond", "the loop continues while the new pos is not 0",
+            r.check(NE0(poly(prev)) in nfs, "continue-cond", "the loop continues while the new pos is not 0",
                     "back edge condition: minima[pos].0 != 0", "the back-trace loop continues under %s, expected pos != 0" % nfs, site=site)
     # entered unconditionally on the Ok path; reverse after loop, before Ok
     okret = m.ok_returns
